@@ -62,6 +62,8 @@ type PropSpec struct {
 	Outside  []string
 	Stubs    []string
 	Replay   string // N or E
+	ReplayE  map[string]bool
+	SolverFor map[string]string
 }
 
 var directive = regexp.MustCompile(`^//vf:(\w+)\s+(C\d+)\s*(.*)$`)
@@ -144,6 +146,21 @@ func parseDirectives() (map[string]*PropSpec, error) {
 				sp.Pkgs[rest] = true
 			case "replay":
 				sp.Replay = rest
+			case "solver":
+				fs := strings.Fields(rest)
+				if sp.SolverFor == nil {
+					sp.SolverFor = map[string]string{}
+				}
+				if len(fs) == 2 {
+					sp.SolverFor[fs[0]] = fs[1]
+				}
+			case "replayE":
+				if sp.ReplayE == nil {
+					sp.ReplayE = map[string]bool{}
+				}
+				for _, f := range strings.Fields(rest) {
+					sp.ReplayE[f] = true
+				}
 			}
 		}
 		return sc.Err()
